@@ -30,13 +30,13 @@ def monitor (a : OpInst) (impl : String) : Option Bool :=
 def model (topic : Bytes) (a b : OpInst) : Option String :=
   let fa := frame 1 a.body
   let fb := frame 2 b.body
-  match runInst topic a ⟨fa ++ fb, 1, false⟩ with
+  match runInstL false topic a (⟨fa ++ fb, 1, false⟩, false) with
   | none => none
   | some (ra, c1) =>
-    match runInst topic b c1, runInst topic b ⟨fb, 2, false⟩ with
+    match runInstL false topic b c1, runInst topic b ⟨fb, 2, false⟩ with
     | some (rb, _), some (rf, _) =>
-      let unread := if ra.isFail then "-" else toString ((c1.stream.length : Int) - fb.length)
-      some s!"{showOutcome ra} {unread} {showOutcome rb} {if showOutcome rb == showOutcome rf then "same" else "diff"}"
+      let unread := if ra.isFail then "-" else if c1.2 then "locked" else toString ((c1.1.stream.length : Int) - fb.length)
+      some s!"{showOutcome ra} {unread} {showOutcome rb} {if showOutcome rb == "hang" then "diff" else if showOutcome rb == showOutcome rf then "same" else "diff"}"
     | _, _ => none
 
 def step (line : String) : String :=
